@@ -6,6 +6,7 @@
 -/
 import StathamModel.SerJson
 import StathamModel.Lemmas.SerOk
+import StathamModel.Lemmas.ParseNF
 import StathamModel.Lemmas.CallVerdict
 import StathamModel.Lemmas.EqRefl
 import StathamModel.Tie
@@ -164,6 +165,14 @@ theorem C03_partial_meaning (env : Env) (cx : PCtx) (e : Elem) (v : JVal)
     cases hc : e.call env (.val v) <;> simp_all [Res.verdict]
   rw [hrel.eq_of_ne_crash hnc']
   cases D6.valid env typeHasObject (toSchema e) v <;> rfl
+
+/-- **Every tree the parser returns** from a schema meeting the decidable source conditions `nfGood` (see Props/C06.lean) is in
+    normal form (`parse_NF`), so for parsed trees the meaning clause needs no hypothesis on the tree. -/
+theorem C03_meaning_parsed (env : Env) (cx : PCtx) (s : Schema) (v : JVal)
+    (hn : nfGood cx s = true) (hg : Good cx (toSchema (parseE cx s)) = true) (hv : distinctKeys v = true)
+    (hnc : (parseE cx s).call env (.val v) ≠ .crash) :
+    (parseE cx s).accepts env v = D6.valid env typeHasObject (toSchema (parseE cx s)) v :=
+  C03_partial_meaning env cx _ v (parse_NF cx s hn) hg hv hnc
 
 /-! non-vacuity: a class with a required array-valued property is in normal form and its serialization is `Good` -/
 def ci0 : CharInfo := { isalnum := isAsciiAlnum, uname := fun _ => "unknown" }
